@@ -95,7 +95,9 @@ def check_line(ctx, s):
     if restored != s:
         ctx.violation('unfold-strict', {'line': s}, f'removing CRLF+space gives {restored!r}')
     back = str(Contentline.from_ical(b))
-    if back != s:
+    # octets that begin with EF BB BF are read as text with a byte order mark (C09: insignificant); the clause
+    # of this property is the textual one above, so one leading U+FEFF may be taken as the mark here
+    if back != s and not (s.startswith('\ufeff') and back == s[1:]):
         ctx.violation('unfold', {'line': s}, f'Contentline.from_ical gives {back!r}')
 
 
